@@ -42,12 +42,14 @@ def _(error_message: str) -> str:
 @contract("check_java_available")
 def _() -> None:
     properties("C18")
+    no_native("depends on PATH of the checking process")
     raises(OSError, when=not JavaOnPath())
 
 
 @contract("check_xform")
 def _(path_to_xform: str) -> List[str]:
     properties("C18")
+    no_native("needs a process-level stand-in for java: covered by the e2e oracle with a scripted validator")
     r = ValidatorResult(path_to_xform)
     raises(OSError, when=not JavaOnPath())
     # the validator rejected the form: conversion fails with the cleaned diagnostics
